@@ -1,7 +1,7 @@
 (* Termination of the E3FP iteration (model M1) and the substructure recursion.
    With duplicate-substructure removal a continuing step strictly enlarges the substructure of at least one
    centre atom while no substructure ever shrinks (given that neighbourhoods grow with the level: `near_mono`,
-   proved for the integer dictionary with a non-negative unit), so at most n^2 - n steps continue:
+   proved for the integer dictionary with a non-negative unit; needed from level 1 on only), so at most n^2 - n steps continue:
    n^2 - n + 1 units of fuel always suffice.  With a level cap L >= 0, L + 1 units suffice, unconditionally. *)
 From Coq Require Import ZArith List Bool Lia Sorted.
 From E3FP Require Import Base.Prelude Base.ZSet Base.Murmur3 Model.Geometry Model.Stereo Model.Fprint Model.E3FP
@@ -190,9 +190,9 @@ Lemma sinv_run fuel st : iterate D C o sc fuel (init_state D sc) = Some st -> si
 Proof. apply sinv_iterate, sinv_init. Qed.
 
 (* ---- monotonicity, under the hypothesis that neighbourhoods grow with the level --------------- *)
-Hypothesis near_mono : forall k l, 0 <= k -> near D o sc k l = true -> near D o sc (k + 1) l = true.
+Hypothesis near_mono : forall k l, 1 <= k -> near D o sc k l = true -> near D o sc (k + 1) l = true.
 
-Lemma nbrs_mono k a l : 0 <= k -> In l (nbrs D o sc k a) -> In l (nbrs D o sc (k + 1) a).
+Lemma nbrs_mono k a l : 1 <= k -> In l (nbrs D o sc k a) -> In l (nbrs D o sc (k + 1) a).
 Proof.
   intro Hk. unfold nbrs. rewrite !filter_In. intros [I H]. split. exact I.
   apply andb_true_iff in H. destruct H as [H1 H2]. rewrite (near_mono k l Hk H1), H2. reflexivity.
@@ -321,9 +321,12 @@ Qed.
 
 (* ---- the integer dictionary: neighbourhoods grow with the level -------------------------------- *)
 Lemma near_mono_ZD (sc : scene ZD) o : 0 <= sc_unit2 ZD sc ->
-  forall k l, 0 <= k -> near ZD o sc k l = true -> near ZD o sc (k + 1) l = true.
+  forall k l, 1 <= k -> near ZD o sc k l = true -> near ZD o sc (k + 1) l = true.
 Proof.
-  intros Hu k l Hk. unfold near. cbn [fleb fmul fofZ ZD F]. rewrite !Z.leb_le. intro H.
+  intros Hu k l Hk. unfold near. cbn [fleb fmul fofZ ZD F]. rewrite !andb_true_iff, !Z.leb_le. intros [H0 H].
+  (* a non-negative radius at level k >= 1 means a non-negative multiplier *)
+  assert (Hm : 0 <= o_mnum o) by nia.
+  split. nia.
   eapply Z.le_trans. exact H. apply Z.mul_le_mono_nonneg_r. exact Hu.
   apply Z.mul_le_mono_nonneg_r. nia. nia.
 Qed.
@@ -366,7 +369,7 @@ Qed.
 Theorem run_terminates_gen : forall D C fuel o m,
   o_remdup o = true ->
   (forall sc, scene_of D o m = Ok sc ->
-     forall k l, 0 <= k -> near D o sc k l = true -> near D o sc (k + 1) l = true) ->
+     forall k l, 1 <= k -> near D o sc k l = true -> near D o sc (k + 1) l = true) ->
   (length (retained D o m) * length (retained D o m) - length (retained D o m) < fuel)%nat ->
   run D C fuel o m <> Raises ERecursion.
 Proof.
@@ -407,14 +410,49 @@ Proof.
   - apply run_terminates_capped. lia. exact Hf.
 Qed.
 
-(* the fuel of the executable runs (Exec/RunM1.v: FUEL = 400) covers every molecule with at most 20 retained
-   atoms at level -1, and every level cap below 400 for any number of atoms *)
-Corollary fuel_400_suffices : forall C o m,
+(* positive form: when the scene can be built (at least one atom is retained and every bond type is in the table)
+   and the options are accepted, the run returns a state *)
+Theorem run_succeeds : forall C fuel o m sc,
+  check_opts o = true -> scene_of ZD o m = Ok sc -> 0 <= m_unit2 ZD m ->
+  (if o_level o =? -1
+   then (length (retained ZD o m) * length (retained ZD o m) - length (retained ZD o m) < fuel)%nat
+   else (Z.to_nat (o_level o) < fuel)%nat) ->
+  exists st, run ZD C fuel o m = Ok st.
+Proof.
+  intros C fuel o m sc Hc Hs Hu Hf.
+  pose proof (run_never_out_of_fuel C fuel o m Hu Hf) as N.
+  unfold run in *. rewrite Hc, Hs in *. simpl in *.
+  destruct (iterate ZD C o sc fuel (init_state ZD sc)) as [st|]. exists st; reflexivity. congruence.
+Qed.
+
+(* the same for any dictionary, given the iteration result (no fuel arithmetic): run = Ok whenever iterate does *)
+Lemma run_succeeds_gen : forall D C fuel o m sc,
+  check_opts o = true -> scene_of D o m = Ok sc ->
+  (exists s, iterate D C o sc fuel (init_state D sc) = Some s) ->
+  exists st, run D C fuel o m = Ok st.
+Proof.
+  intros D C fuel o m sc Hc Hs [s Hi]. exists s. unfold run. rewrite Hc, Hs. simpl. rewrite Hi. reflexivity.
+Qed.
+
+(* the fuel of the executable runs (Exec/RunM1.v: FUEL = Z.to_nat 20000) covers every molecule with at most 141
+   retained atoms at level -1 (141^2 - 141 = 19740), and every level cap below 20000 for any number of atoms *)
+Corollary fuel_exec_suffices : forall C o m,
   0 <= m_unit2 ZD m ->
-  (if o_level o =? -1 then (length (retained ZD o m) <= 20)%nat else o_level o < 400) ->
-  run ZD C 400 o m <> Raises ERecursion.
+  (if o_level o =? -1 then (length (retained ZD o m) <= 141)%nat else o_level o < 20000) ->
+  run ZD C (Z.to_nat 20000) o m <> Raises ERecursion.
 Proof.
   intros C o m Hu H. apply run_never_out_of_fuel. exact Hu.
+  destruct (o_level o =? -1).
+  - set (n := length (retained ZD o m)) in *. nia.
+  - lia.
+Qed.
+
+Corollary exec_run_succeeds : forall C o m sc,
+  check_opts o = true -> scene_of ZD o m = Ok sc -> 0 <= m_unit2 ZD m ->
+  (if o_level o =? -1 then (length (retained ZD o m) <= 141)%nat else o_level o < 20000) ->
+  exists st, run ZD C (Z.to_nat 20000) o m = Ok st.
+Proof.
+  intros C o m sc Hc Hs Hu H. apply (run_succeeds C _ o m sc Hc Hs Hu).
   destruct (o_level o =? -1).
   - set (n := length (retained ZD o m)) in *. nia.
   - lia.
